@@ -1576,8 +1576,28 @@ Proof.
   unfold wf, clean. intros W C id cd E. apply nth_error_In in E.
   apply andb_prop in W as [_ W]. apply andb_prop in C as [_ C].
   rewrite forallb_forall in W, C. specialize (W _ E). specialize (C _ E).
-  unfold wf_body in W. apply andb_prop in W as [S O]. apply andb_prop in C as [C1 _].
-  split; [exact S|]. split; [exact O|]. intros oid. rewrite is_main_clo. exact C1.
+  unfold wf_body in W. apply andb_prop in W as [S O].
+  split; [exact S|]. split; [exact O|]. intros oid. rewrite is_main_clo. exact C.
+Qed.
+
+(* no defect class is left outside [clean]: it holds of every program *)
+Lemma clean_stmt_all : forall m s, clean_stmt m s = true
+with clean_elifs_all : forall m l, clean_elifs m l = true
+with clean_clauses_all : forall m l, clean_clauses m l = true
+with clean_catches_all : forall m l, clean_catches m l = true.
+Proof.
+  - intros m s. destruct s; cbn [clean_stmt]; try reflexivity;
+      repeat rewrite clean_stmt_all; try rewrite clean_elifs_all; try rewrite clean_clauses_all;
+      try rewrite clean_catches_all; reflexivity.
+  - intros m l. destruct l; cbn [clean_elifs]; [reflexivity|]. rewrite clean_stmt_all, clean_elifs_all. reflexivity.
+  - intros m l. destruct l; cbn [clean_clauses]; [reflexivity| |]; rewrite clean_stmt_all, clean_clauses_all; reflexivity.
+  - intros m l. destruct l; cbn [clean_catches]; [reflexivity|]. rewrite clean_stmt_all, clean_catches_all. reflexivity.
+Qed.
+
+Lemma clean_all : forall p, clean p = true.
+Proof.
+  intros p. unfold clean. rewrite clean_stmt_all. cbn [andb].
+  apply andb_true_intro. split; apply forallb_forall; intros x _; apply clean_stmt_all.
 Qed.
 
 Lemma impl_refines_ref_l : forall cmi cmr, (forall t v, cmi t v = cmr t v) ->
@@ -1605,6 +1625,22 @@ Lemma exits_named_l : forall cmi cmr, (forall t v, cmi t v = cmr t v) ->
   shorter stk path ->
   rrel stk (iexec cmi (funcs p) (closures p) fuel fn s fr g) (rexec cmr (funcs p) (closures p) fuel fn (resolve stk path s) fr g).
 Proof. intros cmi cmr Hcm p W C fuel. apply sim; auto. apply funs_ok; auto. apply clos_ok; auto. Qed.
+
+(* [clean] excludes nothing any more (clean_all): the same two statements without it *)
+Lemma impl_refines_ref_wf_l : forall cmi cmr, (forall t v, cmi t v = cmr t v) ->
+  forall fuel p, wf p = true -> run_impl cmi fuel p = run_ref cmr fuel p.
+Proof. intros cmi cmr H fuel p W. apply impl_refines_ref_l; [exact H|exact W|apply clean_all]. Qed.
+
+Lemma exits_named_wf_l : forall cmi cmr, (forall t v, cmi t v = cmr t v) ->
+  forall p, wf p = true ->
+  forall fuel fn s stk path fr g,
+  scoped (List.length stk) s = true -> one_default s = true ->
+  shorter stk path ->
+  rrel stk (iexec cmi (funcs p) (closures p) fuel fn s fr g) (rexec cmr (funcs p) (closures p) fuel fn (resolve stk path s) fr g).
+Proof.
+  intros cmi cmr H p W fuel fn s stk path fr g S O SH.
+  apply exits_named_l; auto using clean_all, clean_stmt_all.
+Qed.
 
 (* fast paths of the implementation, stated on ImplSem alone: whenever a fast path fires it
    yields what the node it replaced yields *)
@@ -1682,10 +1718,15 @@ Definition w_default_first : prog :=
 Definition w_static_main : prog :=
   P0 (SFor (ACons (EAssign "i" (lit 0)) ANil) (EBin Lt (EVar "i") (lit 2)) (ACons (EPostInc "i") ANil)
         (SSeq (SStatic "x" (VInt 0)) (SSeq (SExpr (EPostInc "x")) (SEcho (EVar "x"))))).
+(* $f = function () { $x = 5; }; if ($f() === null) { echo "null"; } else { echo "value"; }   (/repo 1b0c649) *)
+Definition w_closure_falloff : prog :=
+  {| funcs := []; closures := [{| cparams := []; cuses := []; cbody := SExpr (EAssign "x" (lit 5)) |}];
+     main := SSeq (SExpr (EAssign "f" (EClosure 0)))
+                  (SIf (ESame (ECallV (EVar "f") ANil) (ELit VNull)) (SEcho (str "null")) EINil (SEcho (str "value"))) |}.
 Lemma repaired_classes_l :
-  map (run_impl no_catch 50) [w_fallthrough; w_case_group; w_default_first; w_static_main]
-  = [("ab", EndOk); ("x", EndOk); ("d1", EndOk); ("12", EndOk)] /\
-  map (run_ref no_catch 50) [w_fallthrough; w_case_group; w_default_first; w_static_main]
-  = [("ab", EndOk); ("x", EndOk); ("d1", EndOk); ("12", EndOk)] /\
-  forallb clean [w_fallthrough; w_case_group; w_default_first; w_static_main] = true.
+  map (run_impl no_catch 50) [w_fallthrough; w_case_group; w_default_first; w_static_main; w_closure_falloff]
+  = [("ab", EndOk); ("x", EndOk); ("d1", EndOk); ("12", EndOk); ("null", EndOk)] /\
+  map (run_ref no_catch 50) [w_fallthrough; w_case_group; w_default_first; w_static_main; w_closure_falloff]
+  = [("ab", EndOk); ("x", EndOk); ("d1", EndOk); ("12", EndOk); ("null", EndOk)] /\
+  forallb wf [w_fallthrough; w_case_group; w_default_first; w_static_main; w_closure_falloff] = true.
 Proof. vm_compute. auto. Qed.
